@@ -47,19 +47,11 @@ def main():
         sh(f"git -C /repo worktree remove --force {vw}")
     man = json.load(open("/verif/MANIFEST.json"))
     claimed = [c["property_id"] for c in man["checks"]]
-    rcs, o = sh("git -C /repo status --porcelain --untracked-files=no")
-    assert o.strip() == "", "/repo has local modifications"
-    rca, outa = sh(f"git -C /repo apply {patch}")
-    assert rca == 0, outa
-    try:
-        env = dict(os.environ, NSSA_NO_EVIDENCE="1")
-        def one(p):
-            rc, out = sh(f"/verif/check {p}", cwd="/verif", env=env, timeout=600)
-            return p, rc, [l for l in out.splitlines() if l.startswith(("VIOLATION", "  ", "ANALYSIS-ERROR"))][:6]
-        with ThreadPoolExecutor(8) as ex:
-            res = list(ex.map(one, claimed))
-    finally:
-        sh("git -C /repo checkout -- .")
+    sys.path.insert(0, os.path.dirname(os.path.abspath(__file__)))
+    from scratch import checks_on_patch
+    r_ = checks_on_patch(patch, claimed, nlines=6, jobs=8)          # scratch copy of the sources, never /repo
+    assert r_ is not None, "patch does not apply to the current tree"
+    res = [(p, rc, l) for p, (rc, l) in r_.items()]
     rep["checks"] = {p: rc for p, rc, _ in res}
     rep["alarms"] = {p: l for p, rc, l in res if rc != 0}
     dst = f"/verif/seeded_benign/{sid}"
